@@ -171,9 +171,7 @@ class DiameterAssociation(object):
             if self.transport is None:
                 break
 
-            data_stream = copy.copy(self.transport._recv_data_stream)
-            self.transport._recv_data_stream = b""
-            self.transport._recv_data_available.clear()
+            data_stream = self.transport.get_recv_data_stream()
 
             diameter_conn_logger.debug("Grabbing data stream from "\
                                        "Transport Layer to Diameter Layer.")
